@@ -363,8 +363,9 @@ class Matcher:
         raise Unsupported(f"regex node {op}")
 
 
-def regex_once(I, W, kind, pattern, string, flags):
-    """re.match / re.search / re.fullmatch on a (possibly symbolic) string -> SMatch or None"""
+def regex_once(I, W, kind, pattern, string, flags, pos=0):
+    """re.match / re.search / re.fullmatch on a (possibly symbolic) string -> SMatch or None.  pos: Pattern.match(s, pos)
+    etc. - the search starts there, but the string is not sliced ('^' and look-behind see what stands before pos)"""
     if not isinstance(pattern, str):
         if isinstance(pattern, re.Pattern):
             flags = flags | (pattern.flags & ~re.UNICODE)
@@ -376,7 +377,8 @@ def regex_once(I, W, kind, pattern, string, flags):
     n = len(cs)
     prog = parsed(pattern, flags)
     M = Matcher(I, W, cs, flags)
-    starts = range(0, n + 1) if kind == "search" else [0]
+    pos = min(max(pos, 0), n)
+    starts = range(pos, n + 1) if kind == "search" else [pos]
     for p in starts:
         if kind == "fullmatch":
             r = M.seq(list(prog), 0, p, (), lambda p2, g: (p2, g) if p2 == n else None)
